@@ -31,8 +31,11 @@ type step struct {
 	max    int
 	nullOK bool // may (need not) be answered with a null-id error response
 
-	// document edit carried by this step on mainURI (attribution of mirror mismatches)
+	// class of the message for signatures: for a didChange the class of its first edit relative to
+	// the model text (mirror-mismatch:<edClass>, panic:<frame>@<pClass>), otherwise what is unusual
+	// about the message (ok | far | neg | the item name for junk and header items)
 	edClass string
+	pClass  string
 	// model text/version of mainURI after this step (valid when the document is open and untainted)
 	mOpen    bool
 	mTainted bool
@@ -41,8 +44,12 @@ type step struct {
 
 type model struct {
 	doc    *mdoc // mainURI; nil = not open
-	exited int   // index of the exit notification, -1 = none
-	unsure bool  // a frame has been sent after which a conforming server may be unable to see further input
+	other  *mdoc // otherURI (only opened, edited in range and closed: must never be confused with mainURI)
+	exited int   // index of the exit notification, -1 = none; the model stops there
+	// unsure: a frame has been sent after which a conforming server may or may not be able to see
+	// further input.  The model goes on as if it could (so that messages keep their classes), but
+	// nothing is owed and no document clause is asserted any more.
+	unsure bool
 }
 
 func newModel() *model { return &model{exited: -1} }
@@ -67,6 +74,7 @@ func js(v any) string {
 func posJSON(p pos) string { return fmt.Sprintf(`{"line":%d,"character":%d}`, p.L, p.C) }
 
 const tdMain = `"textDocument":{"uri":"` + mainURI + `"}`
+const tdOther = `"textDocument":{"uri":"` + otherURI + `"}`
 
 // request builds a request step.  idRaw is the JSON text of the id.
 func request(m *model, name, idRaw, method, params string) step {
@@ -103,24 +111,27 @@ const (
 	docA = "SELECT COUNT(a) FROM t;\nSELEC b;\nSELECT c FROM u;"
 	docU = "SELECT é, '😀' AS x FROM t;\nSELEC é;"
 	docF = "SELECT 1;\nSELECT FROM WHERE;\nSELEC 2;\nSELECT 3;"
+	docB = "SELECT b FROM t2;\nSELEC 1;\nSELEC 2;"
 )
 
 func (m *model) open(text string, ver int) {
-	if !m.live() {
+	if m.exited >= 0 {
 		return
 	}
 	m.doc = &mdoc{text: text, ver: ver}
 }
 
 // change applies the content changes of one didChange notification to the model
-// and returns the class of the first edit (for signatures).
-func (m *model) change(ver int, eds []edit) string {
-	cls := ""
+// and returns the classes of the first edit (for signatures).
+func (m *model) change(ver int, eds []edit) (string, string) {
+	cls, pcls := "no-document", "no-document"
 	if len(eds) > 0 && m.doc != nil {
-		cls = classify(m.doc.text, eds[0])
+		// (for a tainted document the text of before the undefined edit is used: best effort, deterministic)
+		f := flagsOf(m.doc.text, eds[0])
+		cls, pcls = f.mirrorClass(), f.panicClass()
 	}
-	if !m.live() || m.doc == nil {
-		return cls
+	if m.exited >= 0 || m.doc == nil {
+		return cls, pcls
 	}
 	m.doc.ver = ver
 	for _, ed := range eds {
@@ -137,10 +148,22 @@ func (m *model) change(ver int, eds []edit) string {
 		}
 		m.doc.text = apply(m.doc.text, ed)
 	}
-	return cls
+	return cls, pcls
 }
 
 func (m *model) stamp(s step) step {
+	if s.pClass == "" {
+		switch {
+		case s.kind == kJunk || s.kind == kHeader:
+			s.pClass = s.name
+		case strings.HasSuffix(s.name, "-neg"):
+			s.pClass = "neg"
+		case strings.HasSuffix(s.name, "-far"):
+			s.pClass = "far"
+		default:
+			s.pClass = "ok"
+		}
+	}
 	if m.doc != nil {
 		s.mOpen, s.mTainted, s.mText = true, m.doc.tainted, m.doc.text
 	}
@@ -163,13 +186,13 @@ func openStep(m *model, name, text string, i int) step {
 	s := notification(name, "textDocument/didOpen",
 		fmt.Sprintf(`{"textDocument":{"uri":"%s","languageId":"sql","version":%d,"text":%s}}`, mainURI, 10+i, js(text)))
 	m.open(text, 10+i)
-	s.edClass = "open"
+	s.edClass, s.pClass = "open", "open"
 	return m.stamp(s)
 }
 
 func changeStep(m *model, name string, i int, eds ...edit) step {
 	s := notification(name, "textDocument/didChange", changeParams(10+i, eds))
-	s.edClass = m.change(10+i, eds)
+	s.edClass, s.pClass = m.change(10+i, eds)
 	return m.stamp(s)
 }
 
@@ -250,10 +273,10 @@ func alphabet() []item {
 		openItem("open-a", docA),
 		openItem("open-u", docU),
 		changeItem("chg-full", edit{Full: true, Text: docF}),
-		changeItem("chg-in", edit{S: pos{0, 8}, E: pos{0, 9}, Text: "x"}),         // behind 'é' in docU
-		changeItem("chg-lines", edit{S: pos{0, 3}, E: pos{1, 2}, Text: "\n"}),       // spans a line break
-		changeItem("chg-eol", edit{S: pos{1, 4}, E: pos{1, 1000}, Text: " 1;"}),     // end past the end of the line
-		changeItem("chg-eof-end", edit{S: pos{1, 0}, E: pos{99, 0}, Text: ""}),      // end past the end of the document
+		changeItem("chg-in", edit{S: pos{0, 8}, E: pos{0, 9}, Text: "x"}),                    // behind 'é' in docU
+		changeItem("chg-lines", edit{S: pos{0, 3}, E: pos{1, 2}, Text: "\n"}),                // spans a line break
+		changeItem("chg-eol", edit{S: pos{1, 4}, E: pos{1, 1000}, Text: " 1;"}),              // end past the end of the line
+		changeItem("chg-eof-end", edit{S: pos{1, 0}, E: pos{99, 0}, Text: ""}),               // end past the end of the document
 		changeItem("chg-eof-start", edit{S: pos{99, 0}, E: pos{99, 5}, Text: "\nSELECT 9;"}), // append: start past the end
 		changeItem("chg-inverted", edit{S: pos{1, 3}, E: pos{0, 1}, Text: "x"}),
 		changeItem("chg-negchar", edit{S: pos{0, -1}, E: pos{0, 2}, Text: "x"}),
@@ -273,14 +296,40 @@ func alphabet() []item {
 		}},
 		{"close", func(m *model, i int) step {
 			s := notification("close", "textDocument/didClose", `{`+tdMain+`}`)
-			if m.live() {
+			if m.exited < 0 {
 				m.doc = nil
+			}
+			return m.stamp(s)
+		}},
+		// ---- a second document
+		{"open-b", func(m *model, i int) step {
+			s := notification("open-b", "textDocument/didOpen",
+				fmt.Sprintf(`{"textDocument":{"uri":"%s","languageId":"sql","version":%d,"text":%s}}`, otherURI, 10+i, js(docB)))
+			if m.exited < 0 {
+				m.other = &mdoc{text: docB, ver: 10 + i}
+			}
+			return m.stamp(s)
+		}},
+		{"chg-b", func(m *model, i int) step {
+			ed := edit{S: pos{0, 7}, E: pos{0, 8}, Text: "z"}
+			s := notification("chg-b", "textDocument/didChange",
+				strings.Replace(changeParams(10+i, []edit{ed}), mainURI, otherURI, 1))
+			if m.exited < 0 && m.other != nil {
+				m.other.ver = 10 + i
+				m.other.text = apply(m.other.text, ed) // in contract on every text this document can have
+			}
+			return m.stamp(s)
+		}},
+		{"close-b", func(m *model, i int) step {
+			s := notification("close-b", "textDocument/didClose", `{`+tdOther+`}`)
+			if m.exited < 0 {
+				m.other = nil
 			}
 			return m.stamp(s)
 		}},
 		// ---- requests of every kind the server advertises x position classes
 		posRequest("hover-ok", "textDocument/hover", numID, pos{0, 2}, ""),
-		posRequest("hover-far", "textDocument/hover", numID, pos{99, 99}, ""),
+		posRequest("hover-far", "textDocument/hover", numID, pos{0, 99}, ""), // character past the end of an existing line
 		posRequest("hover-neg", "textDocument/hover", numID, pos{0, -1}, ""),
 		{"compl-ok", func(m *model, i int) step {
 			// extra header in front of Content-Length
@@ -288,6 +337,7 @@ func alphabet() []item {
 			s.frame = append([]byte("Content-Type: application/vscode-jsonrpc; charset=utf-8\r\n"), s.frame...)
 			return m.stamp(s)
 		}},
+		posRequest("compl-far", "textDocument/completion", numID, pos{99, 0}, ""), // line past the last line
 		posRequest("compl-neg", "textDocument/completion", numID, pos{-1, 0}, ""),
 		fmtRequest("fmt-2", 2),
 		fmtRequest("fmt-0", 0),
@@ -296,6 +346,7 @@ func alphabet() []item {
 			return m.stamp(request(m, "symbols", strID(i), "textDocument/documentSymbol", `{`+tdMain+`}`)) // string id
 		}},
 		posRequest("sig-ok", "textDocument/signatureHelp", numID, pos{0, 13}, ""),
+		posRequest("sig-far", "textDocument/signatureHelp", numID, pos{0, 99}, ""),
 		posRequest("sig-neg", "textDocument/signatureHelp", numID, pos{-1, 0}, ""),
 		codeAction("action-ok", [4]int{1, 0, 1, 5}, "expected keyword ; semicolon"),
 		codeAction("action-neg", [4]int{-1, -1, -1, 2}, "unexpected keyword"),
